@@ -206,6 +206,15 @@ def _emit(body, flags, c, msgkey, indent, role):
 NSLOTS = 8
 
 
+# bodies beyond the node bound that every tier runs: repeating groups nested three deep with members at every level (the
+# generated nested classes are qualified by the names of all enclosing groups), alone and below a component
+_F = ('F',)
+EXTRA_BODIES = [
+    (('G', (_F, ('G', (_F, ('G', (_F,)))))),),
+    (('C', (('G', (_F, ('G', (_F, ('G', (_F, _F)))))),)), _F),
+]
+
+
 def c13_family(N):
     """list of dicts(id, xml, body, desc, slots=[variant names], roles=[(variant, role)])"""
     fam = []
@@ -213,6 +222,8 @@ def c13_family(N):
     for idx, body in enumerate(bodies(N)):
         fam.append(_c13_schema(N, idx, body, g, ()))
         g += fam[-1]['nslots']
+    for idx, body in enumerate(EXTRA_BODIES):
+        fam.append(_c13_schema('X', idx, body, 7 * idx, ()))
     return fam
 
 
@@ -272,7 +283,7 @@ def _c13_schema(N, idx, body, g, subst):
     for gname in sorted(set(c.groups)):
         fields.append((5101 + gi, gname, 'NUMINGROUP', ()))
         gi += 1
-    sid = 'c13:%d:%d' % (N, idx) + (':s=' + '+'.join(sorted(subst)) if subst else '')
+    sid = 'c13:%s:%d' % (N, idx) + (':s=' + '+'.join(sorted(subst)) if subst else '')
     return dict(id=sid, xml=schema_xml(msgs, c.components, fields), body=body, desc=show_body(body), nslots=nslots,
                 slots=[variant_name(v) for v in slots], types=[v[0] for v in slots], nmsgs=len(msgs),
                 roles=[(variant_name(slots[s]), r) for (s, r) in c.roles], reuse=bool(reuse))
@@ -281,10 +292,12 @@ def _c13_schema(N, idx, body, g, subst):
 def c13_schema(sid):
     """regenerate one schema from its id"""
     p = sid.split(':')
-    N, idx = int(p[1]), int(p[2])
     subst = ()
     if len(p) > 3 and p[3].startswith('s='):
         subst = tuple(p[3][2:].split('+'))
+    if p[1] == 'X':
+        return _c13_schema('X', int(p[2]), EXTRA_BODIES[int(p[2])], 7 * int(p[2]), subst)
+    N, idx = int(p[1]), int(p[2])
     g = 0
     bl = bodies(N)
     for i in range(idx):
@@ -406,6 +419,8 @@ def c14_family(tier, collisions):
             add([('hash-collision', _flags(c[0]), _flags(c[1]))])
         if col2:
             add([('hash-collision', _flags(col2[0][1]), _flags(col2[0][0]))])   # the same pair the other way round
+            # the colliding member sets one level down: same direct members, nested definitions that differ but hash alike
+            add([('nested-hash-collision', nest(None, col2[0][0]), nest(None, col2[0][1]))])
     else:
         allpairs = [('distinct-sets', a, b) for a, b in itertools.combinations(U, 2)]
         for i in range(0, len(allpairs), 16):
@@ -421,6 +436,8 @@ def c14_family(tier, collisions):
             add([('hash-collision', _flags(c[0]), _flags(c[1]))])
         for c in col2[:10] + col3[:10]:
             add([('hash-collision', _flags(c[1]), _flags(c[0]))])
+        for c in col2[:10] + col3[:5]:
+            add([('nested-hash-collision', nest(None, c[0]), nest(None, c[1]))])
     return fam
 
 
